@@ -195,6 +195,28 @@ Definition sanitize (name : list N) : list N :=
   let fn'' := match fn' with [] => default_name | _ => fn' end in
   if Nat.ltb 1 (length ext') then fn'' ++ ext' else fn''.
 
+(* str.strip(): Python's str.isspace code points *)
+Definition is_pyspace (c : N) : bool :=
+  in_rng 9 13 c || in_rng 28 32 c || (c =? 133) || (c =? 160) || (c =? 5760) || in_rng 8192 8202 c ||
+  (c =? 8232) || (c =? 8233) || (c =? 8239) || (c =? 8287) || (c =? 12288).
+Fixpoint lstrip (s : list N) : list N :=
+  match s with
+  | c :: r => if is_pyspace c then lstrip r else s
+  | [] => []
+  end.
+Definition py_strip (s : list N) : list N := rev (lstrip (rev (lstrip s))).
+
+(* ManagedStream.suggested_file_name for a loaded descriptor: sanitize(descriptor.suggested_file_name.strip()),
+   None = nothing left (the claim's source name is the fallback, outside this model); and the name save_file() uses
+   when no name is given: sanitize_file_name(self.suggested_file_name) *)
+Definition suggested_save_name (sugg : list N) : option (list N) :=
+  match py_strip sugg with
+  | [] => None
+  | s => Some (sanitize s)
+  end.
+Definition save_file_name (sugg : list N) : option (list N) :=
+  match suggested_save_name sugg with Some n => Some (sanitize n) | None => None end.
+
 (* os.path.basename *)
 Definition basename (p : list N) : list N :=
   match rfind (fun c => c =? 47) p with Some i => skipn (S i) p | None => p end.
@@ -476,6 +498,49 @@ Section C02.
     end.
   Definition decrypt_stream (d : desc) (cts : list bytes) : option bytes :=
     decrypt_blobs (d_key d) (removelast (d_blobs d)) cts.
+
+  (* --- the streaming read path: StreamDownloader.cached_read_blob in front of read_blob, one decrypted-blob LRU
+         shared by every stream of a blob manager (BlobManager.decrypted_blob_lru_cache, utils.lru_cache_concurrent).
+         A stream is (descriptor, stored ciphertexts); the cache key is the BlobInfo object, i.e. (stream, position). --- *)
+  Definition read_blob (w : list (desc * list bytes)) (sid i : nat) : option bytes :=
+    match nth_error w sid with
+    | Some (d, cts) =>
+        match nth_error (removelast (d_blobs d)) i, nth_error cts i with
+        | Some b, Some ct => decrypt_blob (d_key d) b ct
+        | _, _ => None
+        end
+    | None => None
+    end.
+
+  Definition ckey := (nat * nat)%type.
+  Definition ckey_eqb (a b : ckey) : bool := Nat.eqb (fst a) (fst b) && Nat.eqb (snd a) (snd b).
+  Definition cache := list (ckey * bytes).          (* most recently used first *)
+  Fixpoint c_lookup (c : cache) (k : ckey) : option bytes :=
+    match c with
+    | [] => None
+    | (k', v) :: r => if ckey_eqb k' k then Some v else c_lookup r k
+    end.
+  Fixpoint c_remove (c : cache) (k : ckey) : cache :=
+    match c with
+    | [] => []
+    | (k', v) :: r => if ckey_eqb k' k then c_remove r k else (k', v) :: c_remove r k
+    end.
+  (* hit: the stored value, entry becomes most recent; miss: read, store, evict the oldest beyond the capacity;
+     an exception (None) is not stored *)
+  Definition cached_read (cap : nat) (w : list (desc * list bytes)) (c : cache) (sid i : nat) : cache * option bytes :=
+    match c_lookup c (sid, i) with
+    | Some v => (((sid, i), v) :: c_remove c (sid, i), Some v)
+    | None =>
+        match read_blob w sid i with
+        | Some v => (firstn cap (((sid, i), v) :: c), Some v)
+        | None => (c, None)
+        end
+    end.
+  Fixpoint run_reads (cap : nat) (w : list (desc * list bytes)) (c : cache) (ops : list (nat * nat)) : list (option bytes) :=
+    match ops with
+    | [] => []
+    | (sid, i) :: r => let (c', o) := cached_read cap w c sid i in o :: run_reads cap w c' r
+    end.
 
 End C02.
 
